@@ -8,8 +8,15 @@ integers (it decides the rational relaxation).  No external solver is used.
 from fractions import Fraction
 
 
+_AKEY = {}
+
+
 def _akey(a):
-    return repr(a)
+    k = _AKEY.get(a)
+    if k is None:
+        k = repr(a)
+        _AKEY[a] = k
+    return k
 
 
 class Poly:
